@@ -67,7 +67,7 @@ pub fn c01(g: &mut G) {
         g.emit("verify".into());
     }
     // sizes the model cannot afford (implementation against an independent oracle, in a child process)
-    g.emit("!scale bigfile set 17".into());
+    g.emit("!scale bigfile set 21".into());
     g.emit(format!("!scale deepkeys{}", if g.thorough { "" } else { " quick" }));
     if g.thorough {
         g.emit("!scale bigfile map 33".into());
@@ -136,7 +136,7 @@ fn probes(g: &mut G, keys: &[Vec<u8>]) -> Vec<Vec<u8>> {
 }
 
 pub fn c02(g: &mut G) {
-    g.emit("!scale bigfile map 17".into());
+    g.emit("!scale bigfile map 21".into());
     g.emit(format!("!scale deepkeys{}", if g.thorough { "" } else { " quick" }));
     let sets = key_sets(g);
     let stride = if g.thorough { 1 } else { 3 };
@@ -180,7 +180,7 @@ fn bound_tokens(bkeys: &[Vec<u8>]) -> (Vec<String>, Vec<String>) {
 pub fn c03(g: &mut G) {
     g.emit(format!("!scale deepkeys{}", if g.thorough { "" } else { " quick" }));
     if g.thorough {
-        g.emit("!scale bigfile set 17".into());
+        g.emit("!scale bigfile set 21".into());
     }
     // small scopes with the full bound universe one level deeper than the keys
     let deep = if g.thorough { 4 } else { 3 };
